@@ -480,7 +480,99 @@ def rule_d(ctx: Context, R: Reporter):
             msg=f"{fi.short}: missing return shapes {sorted(want - shapes)}", key="shape-table")
 
 
+def _is_normalising(ctx: Context, fi: FuncInfo, flow, d, seen=None) -> Tuple[bool, str]:
+    """Does definition `d` of a weight vector make it sum to one?  Recognised:
+    `w /= sum(w)`, `w = v / sum(v)`, `w = ones(n) / n`, `w = full(n, 1/n)`, the
+    weights component returned by an internal routine all of whose returned
+    weights are themselves normalised, and plain copies of such a value."""
+    seen = seen or set()
+    if id(d) in seen:
+        return False, "cyclic definition"
+    seen = seen | {id(d)}
+
+    def is_sum_of(e, name_txt):
+        return isinstance(e, ast.Call) and (ctx.res.external_name(fi, e) or dotted(e.func)).split(".")[-1] == "sum" and e.args and norm_text(e.args[0]) == name_txt \
+            or (isinstance(e, ast.Call) and isinstance(e.func, ast.Attribute) and e.func.attr == "sum" and not e.args and norm_text(e.func.value) == name_txt)
+
+    if d.kind == "aug":
+        st = d.stmt
+        if isinstance(st, ast.AugAssign) and isinstance(st.op, ast.Div) and is_sum_of(st.value, norm_text(st.target)):
+            return True, ""
+        return False, f"`{norm_text(st)[:50]}` is not a division by the vector's own sum"
+    v = d.value
+    if d.kind != "assign" or v is None:
+        return False, f"definition of kind {d.kind}"
+    if d.path:
+        # tuple component of an internal call
+        if isinstance(v, ast.Call):
+            tg = [t for t in ctx.res.call_targets(fi, v) if isinstance(t, FuncInfo)]
+            if len(tg) == 1:
+                cal = tg[0]
+                cflow = flow_of(cal.node)
+                oks = []
+                for rn in cflow.cfg.stmt_nodes():
+                    if rn.kind == "stmt" and isinstance(rn.stmt, ast.Return) and isinstance(rn.stmt.value, ast.Tuple) and d.path[0] < len(rn.stmt.value.elts):
+                        e = rn.stmt.value.elts[d.path[0]]
+                        if isinstance(e, ast.Name):
+                            ds2 = cflow.reaching(rn, e.id)
+                            oks.append(bool(ds2) and all(_is_normalising(ctx, cal, cflow, d2, seen)[0] for d2 in ds2))
+                        else:
+                            oks.append(False)
+                if oks and all(oks):
+                    return True, ""
+                return False, f"component {d.path[0]} returned by {cal.short} is not normalised on every return"
+        return False, "tuple component of an unresolved call"
+    if isinstance(v, ast.BinOp) and isinstance(v.op, ast.Div):
+        if is_sum_of(v.right, norm_text(v.left)):
+            return True, ""
+        # ones(n) / n
+        if isinstance(v.left, ast.Call) and (ctx.res.external_name(fi, v.left) or "") in ("numpy.ones",) and v.left.args and norm_text(v.left.args[0]) == norm_text(v.right):
+            return True, ""
+        return False, f"`{norm_text(v)[:50]}` is not v / sum(v) nor ones(n) / n"
+    if isinstance(v, ast.Call) and (ctx.res.external_name(fi, v) or "") == "numpy.full" and len(v.args) >= 2:
+        f = v.args[1]
+        if isinstance(f, ast.BinOp) and isinstance(f.op, ast.Div) and const_value(f.left) in (1, 1.0) and norm_text(f.right) == norm_text(v.args[0]):
+            return True, ""
+    if isinstance(v, ast.Name):
+        ds2 = flow.reaching(d.node, v.id)
+        if ds2 and all(_is_normalising(ctx, fi, flow, d2, seen)[0] for d2 in ds2):
+            return True, ""
+    if isinstance(v, ast.Call) and isinstance(v.func, ast.Attribute) and v.func.attr == "copy" and isinstance(v.func.value, ast.Name):
+        ds2 = flow.reaching(d.node, v.func.value.id)
+        if ds2 and all(_is_normalising(ctx, fi, flow, d2, seen)[0] for d2 in ds2):
+            return True, ""
+    return False, f"`{norm_text(v)[:50]}` does not normalise"
+
+
+def rule_e(ctx: Context, R: Reporter):
+    """C12.e  the weights returned by posterior() sum to one on every path: every
+    definition of the returned weight vector that reaches a return is a
+    normalisation (own-sum division, uniform 1/n, or the normalised output of the
+    trimming routine)."""
+    fi = posterior_fn(ctx)
+    flow = flow_of(fi.node)
+    tg = Tagger(ctx, fi)
+    n = 0
+    seen = set()
+    for rn in flow.cfg.stmt_nodes():
+        if rn.kind == "stmt" and isinstance(rn.stmt, ast.Return) and isinstance(rn.stmt.value, ast.Tuple) and len(rn.stmt.value.elts) >= 2:
+            w = rn.stmt.value.elts[1]
+            if not isinstance(w, ast.Name):
+                raise AnalysisError(f"C12.e: returned weights `{unparse(w)}` are not a plain name")
+            for d in flow.reaching(rn, w.id):
+                if id(d) in seen:
+                    continue
+                seen.add(id(d))
+                n += 1
+                ok, why = _is_normalising(ctx, fi, flow, d)
+                R.check("C12.e", "every definition of the returned posterior weights normalises them", ok, fi, d.stmt if d.stmt is not None else rn.stmt,
+                        msg=f"{fi.short}: the weights returned by `{unparse(rn.stmt)[:50]}` can come from {why}: with that option combination the returned weights do not sum to one",
+                        key=f"weights-normalised:{norm_text(d.stmt)[:50] if d.stmt is not None else d.kind}")
+    R.floor("C12.e", "definitions of the returned weights", n, 3)
+
+
 def run(ctx: Context, R: Reporter):
+    R.guard(rule_e, ctx, R)
     R.guard(rule_a, ctx, R)
     R.guard(rule_b, ctx, R)
     R.guard(rule_c, ctx, R)
